@@ -6,6 +6,7 @@ package sim
 import (
 	"context"
 	"fmt"
+	"reflect"
 	"sort"
 	"time"
 
@@ -113,6 +114,7 @@ func runC11(rc *RunCtx) {
 	var queries []coilQuery
 	var stepErr error
 	var builderReqs []modbus.BuilderRequest
+	valueCopyBad := ""
 	var builderVals [][]modbus.FieldValue
 	var builderErrs []error
 	var builtDiff string
@@ -203,6 +205,16 @@ func runC11(rc *RunCtx) {
 				vals, err := reqs[i].ExtractFields(resps[i], true)
 				builderVals = append(builderVals, vals)
 				builderErrs = append(builderErrs, err)
+				// the same response held by value (a copy of what the pointer points to - what a server handler builds as a
+				// struct literal is such a value): extraction must give the same
+				if v := reflect.ValueOf(resps[i]); v.Kind() == reflect.Ptr && !v.IsNil() && valueCopyBad == "" {
+					if pr, ok := v.Elem().Interface().(packet.Response); ok {
+						vals2, err2 := reqs[i].ExtractFields(pr, true)
+						if a, b := renderFieldValues(vals, err), renderFieldValues(vals2, err2); a != b {
+							valueCopyBad = fmt.Sprintf("request %d: extraction from the response yields %s (%v), from a copy of it held by value %s (%v)", i, trunc([]byte(a), 120), err, trunc([]byte(b), 120), err2)
+						}
+					}
+				}
 			}
 			// the same responses through a hand-made field list (Fields is public): coils asked for under two names, and
 			// addresses outside what the response holds - each must be answered for itself
@@ -364,6 +376,10 @@ func runC11(rc *RunCtx) {
 			case !inside && fv.Error == nil:
 				rc.Violate("missing_bounds_error", sigBase+"|hand_made_fields", "coil field %s at %d lies outside the response window [%d,%d) but was extracted as %v without error", fv.Field.Name, a, handBase, handBase+handBits, fv.Value)
 			}
+		}
+		if valueCopyBad != "" {
+			rc.Violate("value_copy_differs", sigBase+"|builder", "%s", valueCopyBad)
+			return
 		}
 		for i := range builderReqs {
 			fieldReq := &builderReqs[i]
